@@ -901,18 +901,77 @@ fn convert_first_set_to_augmented_as_is(first: FirstSet) -> /*@[*/(r: /*@]*/Augm
     )
 }
 
-fn are_cores_equal(a: &State, b: &State) -> bool {
+fn are_cores_equal(a: &State, b: &State) -> /*@[*/(r: /*@]*/bool/*@[*/)/*@]*/
+    //@[ C17 C04 C11 are_cores_equal: states are merged iff their cores (rule, dot pairs) are equal - BOTH inclusions
+    ensures r == same_core(a.items@, b.items@),
+    //@]
+{
     is_core_subset(a, b) && is_core_subset(b, a)
 }
 
-fn is_core_subset(substate: &State, superstate: &State) -> bool {
-    substate.items.iter().all(|sub| {
-        superstate
+fn is_core_subset(substate: &State, superstate: &State) -> /*@[*/(r: /*@]*/bool/*@[*/)/*@]*/
+    //@[ C17 is_core_subset: every (rule, dot) of the first state occurs in the second
+    ensures r == core_subset(substate.items@, superstate.items@),
+    //@]
+{
+    //@[ proof
+    let ghost sub_s = substate.items.seq();
+    let ghost sup_s = superstate.items.seq();
+    //@]
+    /*@[*/let __vx_r = /*@]*/substate.items.iter().all(|sub/*@[*/: &StateItem/*@]*/| /*@[*/-> (o: bool)
+        ensures o == seq_has_core(sup_s, core_item(*sub))
+    /*@]*/{
+        /*@[*/let __vx_a = /*@]*/superstate
             .items
             .iter()
-            .any(|super_| sub.rule_index == super_.rule_index && sub.dot == super_.dot)
-    })
+            .any(|super_/*@[*/: &StateItem/*@]*/| /*@[*/-> (o2: bool) ensures o2 == (core_item(*super_) == core_item(*sub)) { /*@]*/sub.rule_index == super_.rule_index && sub.dot == super_.dot/*@[*/ }/*@]*/)/*@[*/;
+        proof {
+            let rem = sup_s.as_ref();
+            assert(rem.len() == sup_s.len());
+            assert(forall|j: int| 0 <= j < rem.len() ==> *(#[trigger] rem[j]) == sup_s[j]);
+            if !__vx_a {
+                assert forall|j: int| 0 <= j < sup_s.len() implies core_item(#[trigger] sup_s[j]) != core_item(*sub) by { assert(*rem[j] == sup_s[j]); }
+            }
+        }
+        __vx_a/*@]*/
+    })/*@[*/;
+    proof {
+        let rem = sub_s.as_ref();
+        assert(rem.len() == sub_s.len());
+        assert(forall|i: int| 0 <= i < rem.len() ==> *(#[trigger] rem[i]) == sub_s[i]);
+        if __vx_r {
+            assert forall|i: int| 0 <= i < sub_s.len() implies seq_has_core(sup_s, core_item(#[trigger] sub_s[i])) by { assert(*rem[i] == sub_s[i]); }
+        }
+        lemma_core_subset_seq(sub_s, sup_s, __vx_r);
+    }
+    __vx_r/*@]*/
 }
+
+//@[ C17 lemma: the nested all/any over the item sequences decides core inclusion of the item sets
+spec fn seq_has_core(s: Seq<StateItem>, c: (RuleIndex, usize)) -> bool { exists|j: int| 0 <= j < s.len() && core_item(#[trigger] s[j]) == c }
+
+proof fn lemma_core_subset_seq(sub_s: Seq<StateItem>, sup_s: Seq<StateItem>, r: bool)
+    requires r == (forall|i: int| 0 <= i < sub_s.len() ==> seq_has_core(sup_s, core_item(#[trigger] sub_s[i])))
+    ensures r == core_subset(sub_s.to_set(), sup_s.to_set())
+{
+    if r {
+        assert forall|it: StateItem| #[trigger] sub_s.to_set().contains(it) implies core_has(sup_s.to_set(), core_item(it)) by {
+            let i = choose|i: int| 0 <= i < sub_s.len() && sub_s[i] == it;
+            assert(seq_has_core(sup_s, core_item(sub_s[i])));
+            let j = choose|j: int| 0 <= j < sup_s.len() && core_item(#[trigger] sup_s[j]) == core_item(sub_s[i]);
+            assert(sup_s.to_set().contains(sup_s[j]));
+        }
+    }
+    if core_subset(sub_s.to_set(), sup_s.to_set()) {
+        assert forall|i: int| 0 <= i < sub_s.len() implies seq_has_core(sup_s, core_item(#[trigger] sub_s[i])) by {
+            assert(sub_s.to_set().contains(sub_s[i]));
+            let it2 = choose|it2: StateItem| sup_s.to_set().contains(it2) && #[trigger] core_item(it2) == core_item(sub_s[i]);
+            let j = choose|j: int| 0 <= j < sup_s.len() && sup_s[j] == it2;
+            assert(core_item(sup_s[j]) == core_item(sub_s[i]));
+        }
+    }
+}
+//@]
 
 fn get_nth_field_symbol(n: usize, fieldset: &Fieldset) -> /*@[*/(r: /*@]*/Option<Symbol>/*@[*/)/*@]*/
     //@[ C17 get_nth_field_symbol: the n-th symbol of the right-hand side, None past the end
